@@ -23,11 +23,11 @@ ASSUMPTIONS = ['a fault is the solver reporting SolverStatus.error at the _solve
                'termination is judged on the logical solve count, wall-clock watchdogs only yield inconclusive']
 FLOORS = {'quick': {'conclusive': 60, 'distinct_nontrivial': 40,
                     'counters': {'clean_runs': 60, 'faults_warn': 250, 'faults_raise': 250, 'faults_backup_ok': 120,
-                                 'faults_backup_fail': 120, 'organic_failures': 30, 'tables_checked': 800,
+                                 'faults_backup_fail': 120, 'organic_failures': 30, 'trial_limit_expected_failures': 5, 'tables_checked': 800,
                                  'prefix_rows_compared': 1000, 'fault_at_first_solve': 50}},
           'thorough': {'conclusive': 600, 'distinct_nontrivial': 400,
                        'counters': {'clean_runs': 600, 'faults_warn': 6000, 'faults_raise': 6000, 'faults_backup_ok': 3000,
-                                    'faults_backup_fail': 3000, 'organic_failures': 300, 'tables_checked': 20000,
+                                    'faults_backup_fail': 3000, 'organic_failures': 300, 'trial_limit_expected_failures': 50, 'tables_checked': 20000,
                                     'prefix_rows_compared': 30000, 'fault_at_first_solve': 500}}}
 CASE_TIMEOUT = {'quick': 240, 'thorough': 900}
 NODE_KEYS = ['head', 'demand', 'pressure', 'leak_demand']
@@ -142,10 +142,10 @@ def run_case(c, rng):
             check_failure_report(c, tr, False, sample, label)
         check_shape(c, wn, tr.results, sample, label, failed=failed)
         compare_prefix(c, tr.results, R0, label, dict(sample=sample, opt=opt), full=not failed)
-    if rng.random() < 0.5:
+    if rng.random() < 0.7:
         wn.reset_initial_values()
         old = wn.options.hydraulic.trials
-        wn.options.hydraulic.trials = rng.choice([0, 1])
+        wn.options.hydraulic.trials = rng.choice([0, 1, 1, 2])
         tr = simobs.run_wntr(wn, deep=False)
         label = 'trials=%d' % wn.options.hydraulic.trials
         wn.options.hydraulic.trials = old
@@ -154,6 +154,23 @@ def run_case(c, rng):
                       traceback=tr.traceback, sample=sample)
         else:
             failed = tr.results.error_code is not None
+            # the clean run's logical clock says how many re-solves each step needed: the first step needing more than `trials`
+            # cannot be completed, the run has to stop there and say so
+            T = int(label.split('=')[1])
+            per_t = {}
+            for sv in clean.solves:
+                per_t[sv['t']] = per_t.get(sv['t'], 0) + 1
+            over = sorted(t_ for t_, n_ in per_t.items() if n_ - 1 > T)
+            if over:
+                c.count('trial_limit_expected_failures')
+                if not failed:
+                    c.violate('trial_limit_not_enforced', '%s: the step at t = %s s needs %d re-solves (clean run), yet the run reported no failure (error_code None, '
+                              'last reported time %s)' % (label, over[0], per_t[over[0]] - 1, list(tr.results.node['head'].index)[-1:]), sample=sample, label=label)
+                elif any(t_ >= over[0] for t_ in tr.results.node['head'].index):
+                    c.violate('failed_step_reported', '%s: the step at t = %s s could not be completed but times %s are reported' % (
+                        label, over[0], [t_ for t_ in tr.results.node['head'].index if t_ >= over[0]][:4]), sample=sample, label=label)
+            else:
+                c.count('trial_limit_not_reached_cases')
             if failed:
                 c.count('organic_failures')
                 if not any('Exceeded maximum number of trials' in w or 'did not converge' in w for w in tr.warnings):
